@@ -225,7 +225,9 @@ def link_requirements(spec, li, reqs):
             return None
         if a[0] in CACHE:
             ts = [t for tag, t in reqs if tag == ("ad", li, ai)]
-            return ts[-1] if ts else None
+            # several pulls may cross one link within one update (two outputs of a pull-based component, a
+            # diamond): the update needs the source for the largest of them
+            return max(ts) if ts else None
     return "source"
 
 
